@@ -139,6 +139,41 @@ func Run(out, mode string) {
 			bgz.RunReader(t, bgz.RScenario{Class: "cached", File: f, CutLen: -1, RD: rd, Ops: ops, Ref: ref})
 		}
 	}
+	if mode == "c03" {
+		// settled histories: a slow source and a pause after every operation, so that between two calls
+		// the read-ahead runs until its queue is full of what followed the *previous* position; jumps
+		// answered from a roomy cache leave that queue stale, and the next sequential step has to
+		// drain it (keeping what it finds) before it loads the wanted member itself
+		nset := 6
+		if tr.Tier() == "thorough" {
+			nset = 60
+		}
+		var shape []int
+		for i := 0; i < 12; i++ {
+			shape = append(shape, 300)
+		}
+		f := bgz.BuildFile(shape, true, 1, false)
+		for h := 0; h < nset; h++ {
+			var ops []bgz.ROp
+			ops = append(ops, bgz.ROp{K: "setcache", Kind: []string{"LRU", "FIFO", "Random"}[h%3], Cap: 16, Stats: h%4 == 3})
+			for k := 0; k < 3; k++ {
+				ops = append(ops, bgz.ROp{K: "seek", M: 1 + r.Intn(10)})
+			}
+			ops = append(ops, bgz.ROp{K: "read", N: 2*300 + 10})
+			for k := 0; k < 2; k++ {
+				ops = append(ops, bgz.ROp{K: "seek", M: 1 + r.Intn(10)}, bgz.ROp{K: "read", N: 100})
+			}
+			if h == 0 {
+				ops = []bgz.ROp{ops[0], {K: "seek", M: 8}, {K: "seek", M: 5}, {K: "seek", M: 1}, {K: "read", N: 610}, {K: "seek", M: 6}, {K: "read", N: 100}}
+			}
+			rd := 2 + h%2
+			probe := tr.Create("/dev/null")
+			ref := bgz.RunReader(probe, bgz.RScenario{Class: "ref", File: f, CutLen: -1, RD: rd, Ops: stripCache(ops)})
+			probe.Close()
+			bgz.RunReader(t, bgz.RScenario{Class: "cached", File: f, CutLen: -1, RD: rd, Ops: ops, Ref: ref,
+				SrcDelay: 500 * time.Microsecond, Settle: 25 * time.Millisecond})
+		}
+	}
 	for _, sh := range shapes(r, nshapes) {
 		for _, eof := range []bool{true, false} {
 			f := bgz.BuildFile(sh, eof, []int{-1, 0, 1, 9}[r.Intn(4)], r.Intn(2) == 0)
